@@ -552,3 +552,135 @@ def _same(got, want):
     if isinstance(want, str):
         return got == want.encode("latin-1")
     return got == want
+
+
+# -- PDFXRefStream.load: /Index pairs (default: one range 0..Size), /W field widths, the decoded data and the stream dictionary as trailer ------------------
+pdm = real_module("pdfminer.pdfdocument")
+ptm = real_module("pdfminer.pdftypes")
+
+
+class _XRefStreamParser(T.Sort):
+    KINDS = ["xref-with-index", "xref-default-index", "xref-odd-index", "xref-empty-index", "not-a-stream", "stream-of-other-type", "stream-without-type"]
+    def fresh(self, ctx, name):
+        kind = ctx.choose(self.KINDS, "object-kind")
+        LITX = pdm.LITERAL_XREF
+        size, a, b, c2, d = [ctx.fresh_int(n) for n in ("Size", "i0", "n0", "i1", "n1")]
+        w = [ctx.fresh_int("w%d" % k) for k in range(3)]
+        ctx.assume(z3.And(*[x >= 0 for x in w]))
+        attrs = {"Size": size, "W": list(w)}
+        if kind.startswith("xref") or kind == "stream-of-other-type":
+            attrs["Type"] = LITX if kind.startswith("xref") else real_module("pdfminer.psparser").LIT("ObjStm")
+        if kind == "xref-with-index":
+            attrs["Index"] = [a, b, c2, d]
+        elif kind == "xref-odd-index":
+            attrs["Index"] = [a, b, c2]
+        elif kind == "xref-empty-index":
+            attrs["Index"] = []
+        decoded = T.Bytes().fresh(ctx, "decoded")
+        strm = 17 if kind == "not-a-stream" else SObj(ptm.PDFStream, {"attrs": attrs, "get_data": SymFn(lambda I: decoded, "get_data"), "rawdata": b"raw", "data": None}, "stream")
+        toks = [(0, 12), (3, 0), (5, "obj-keyword")]
+        o = SObj(None, {"nexttoken": SymFn(lambda I: toks.pop(0), "nexttoken"), "nextobject": SymFn(lambda I: (9, strm), "nextobject"),
+                        "_kind": kind, "_attrs": attrs, "_decoded": decoded, "_idx": (a, b, c2, d), "_size": size, "_w": w, "_toks": toks}, name)
+        return o
+    def sample(self, rng):
+        return None
+    def from_model(self, ev, v):
+        return {"kind": v.f["_kind"]}
+
+
+c = contract("pdfminer.pdfdocument:PDFXRefStream.load", props=["C02", "C13"])
+c.param("self", T.Obj("pdfminer.pdfdocument:PDFXRefStream", ranges=T.Const([]), data=T.Const(None), entlen=T.Const(None), fl1=T.Const(None), fl2=T.Const(None), fl3=T.Const(None)))
+c.param("parser", _XRefStreamParser())
+c.skip_cross = True
+c.wire = lambda bound, ghosts: bound["self"].f.__setitem__("ranges", [])
+c.mod("self.*").mod("parser._toks")
+c.may_raise(pdm.PDFNoValidXRef, lambda parser: parser._kind in ("not-a-stream", "stream-of-other-type", "stream-without-type"))
+c.may_raise(pdm.PDFSyntaxError, lambda parser: parser._kind == "xref-odd-index")
+
+
+def _xs_load_spec(self, parser):
+    k = parser._kind
+    a, b, c2, d = parser._idx
+    want = {"xref-with-index": [(a, b), (c2, d)], "xref-default-index": [(0, parser._size)], "xref-empty-index": []}[k]
+    if len(self.ranges) != len(want):
+        return False
+    return And(*[And(eq(g[0], w_[0]), eq(g[1], w_[1])) for g, w_ in zip(self.ranges, want)],
+               eq(self.fl1, parser._w[0]), eq(self.fl2, parser._w[1]), eq(self.fl3, parser._w[2]), eq(self.entlen, parser._w[0] + parser._w[1] + parser._w[2]),
+               self.trailer is not None and sorted(self.trailer) == sorted(parser._attrs), eq(self.data.n, parser._decoded.n))
+
+
+c.ens("ranges-from-Index-or-0-Size-widths-from-W-decoded-data-dictionary-as-trailer", _xs_load_spec)
+
+
+# -- _getobj_parse (well-formed `num gen obj` at the offset): the object that follows, when the number is the one asked for ------------------------------------
+class _ObjAtParser(T.Sort):
+    def fresh(self, ctx, name):
+        kind = ctx.choose(["obj-keyword", "other-keyword"], "third-token")
+        num, gen = ctx.fresh_int("num"), ctx.fresh_int("gen")
+        KO = pdm.PDFDocument.KEYWORD_OBJ
+        KWD_ = real_module("pdfminer.psparser").KWD
+        toks = [(0, num), (2, gen), (4, KO if kind == "obj-keyword" else KWD_(b"endobj"))]
+        calls = []
+        o = SObj(None, {"seek": SymFn(lambda I, p: calls.append(("seek", p)), "seek"), "nexttoken": SymFn(lambda I: (calls.append("nexttoken"), toks.pop(0))[1], "nexttoken"),
+                        "nextobject": SymFn(lambda I: (calls.append("nextobject"), (8, "the-object"))[1], "nextobject"), "_calls": calls, "_num": num, "_kind": kind, "_toks": toks}, name)
+        return o
+    def sample(self, rng):
+        return None
+    def from_model(self, ev, v):
+        return {"third": v.f["_kind"], "num": int(str(ev(v.f["_num"])))}
+
+
+c = contract("pdfminer.pdfdocument:PDFDocument._getobj_parse#number-matches", props=["C02"])
+c.param("self", T.Obj("pdfminer.pdfdocument:PDFDocument", _parser=_ObjAtParser())).param("pos", T.Int(0, 10 ** 6)).param("objid", T.Int(1, 10 ** 6))
+c.skip_cross = True
+c.req("the-object-at-the-offset-carries-the-number-asked-for", lambda self, objid: eq(self._parser._num, objid))
+c.mod("self._parser._calls").mod("self._parser._toks")
+c.may_raise(pdm.PDFSyntaxError, lambda self: self._parser._kind != "obj-keyword")
+c.returns(T.Opaque("object"))
+c.ens("seeks-to-the-offset-reads-num-gen-obj-returns-the-object-after-it", lambda self, pos, result: (
+    result == "the-object" and len(self._parser._calls) == 5 and self._parser._calls[0][0] == "seek" and self._parser._calls[1:] == ["nexttoken"] * 3 + ["nextobject"])
+    and eq(self._parser._calls[0][1], pos))
+
+
+# -- _get_objects: every object of the decoded object stream in order, and /N (0 when absent) --------------------------------------------------------------
+def _sp_init(I, bound):
+    bound["self"].f["_data"] = bound["data"]
+    bound["self"].f["_left"] = ["o1", "o2", "o3"][:I.ghosts["k"]]
+
+
+def _sp_next(I, bound):
+    from pyvc.symexec import SymRaise
+    left = bound["self"].f["_left"]
+    if not left:
+        raise SymRaise(real_module("pdfminer.psparser").PSEOF, "end of object stream")
+    bound["self"].f["_popped"] = left.pop(0)
+
+
+_spi = stub("pdfminer.pdfparser:PDFStreamParser.__init__", ["self", "data"]); _spi.effect = _sp_init
+_spd = stub("pdfminer.pdfparser:PDFParser.set_document", ["self", "doc"])
+_spn = stub("pdfminer.psparser:PSStackParser.nextobject", ["self"]); _spn.effect = _sp_next
+_spn.result_fn = ("next", lambda self: (0, self.f["_popped"]))
+
+
+class _ObjStm(T.Sort):
+    def fresh(self, ctx, name):
+        k = ctx.choose(["N-present", "N-absent"], "N")
+        n = ctx.fresh_int("N")
+        attrs = {"Type": pdm.LITERAL_OBJSTM, "First": 10}
+        if k == "N-present":
+            attrs["N"] = n
+        return SObj(ptm.PDFStream, {"attrs": attrs, "get_data": SymFn(lambda I: "decoded-object-stream", "get_data"), "rawdata": b"raw", "data": None, "_k": k, "_n": n}, name)
+    def sample(self, rng):
+        return None
+    def from_model(self, ev, v):
+        return v.f["_k"]
+
+
+c = contract("pdfminer.pdfdocument:PDFDocument._get_objects", props=["C02"])
+c.param("self", T.Obj("pdfminer.pdfdocument:PDFDocument")).param("stream", _ObjStm()).ghost("k", T.OneOf(0, 1, 3))
+c.skip_cross = True
+c.stubs = {"pdfminer.pdfparser:PDFStreamParser.__init__": _spi, "pdfminer.pdfparser:PDFParser.set_document": _spd, "pdfminer.psparser:PSStackParser.nextobject": _spn}
+c.returns(T.Opaque("pair"))
+c.ens("all-objects-of-the-decoded-stream-in-order-and-N", lambda stream, k, result, trace: (
+    list(result[0]) == ["o1", "o2", "o3"][:k] and trace[0][1]["data"] == "decoded-object-stream" and trace[1][0].endswith("set_document")
+    and ((result[1] == 0) if stream._k == "N-absent" else eq(result[1], stream._n))))
